@@ -33,7 +33,7 @@ HS_CORRUPTIONS = ("none", "no_spaces_status", "nonnumeric_status", "empty_status
                   "redirect_no_location", "redirect_relative", "redirect_foreign_scheme", "redirect_garbage", "redirect_empty",
                   "redirect_unresolvable", "setcookie_odd", "very_long_line", "many_headers", "status_100", "http09", "tab_separators",
                   "trailing_garbage", "truncated_head", "extra_space_status", "accept_nonascii", "duplicate_status", "unicode_digit_status",
-                  "fullwidth_digit_status", "status_with_sign", "status_with_underscore", "setcookie_illegal_key", "redirect_idna", "redirect_nul_host")
+                  "fullwidth_digit_status", "status_with_sign", "status_with_underscore", "setcookie_illegal_key", "redirect_idna", "redirect_nul_host", "redirect_bad_brackets", "redirect_nfkc_host", "redirect_bad_port")
 FR_CORRUPTIONS = ("none", "rsv", "opcode", "len_2_63", "len_2_64_minus_1", "len_16bit_huge", "truncated_payload", "truncated_header",
                   "truncated_extlen", "masked_garbage", "close_1byte", "close_badcode", "close_badutf8", "ping_long", "cont_idle",
                   "text_badutf8", "text_truncated_utf8", "random_tail", "zero_bytes", "nested_text", "frag_text_badutf8_first", "frag_text_badutf8_middle",
@@ -105,6 +105,10 @@ def hs_bytes(rng, corr):
         loc = {"redirect_no_location": None, "redirect_relative": "/other/path", "redirect_foreign_scheme": "http://elsewhere.test/x",
                "redirect_garbage": "::::not a url", "redirect_empty": "", "redirect_unresolvable": "ws://nowhere.invalid/",
                "redirect_nul_host": rng.choice(("ws://a\x00b/", "ws://sim.test\x00.evil.test/x", "wss://\x00/")),
+               # shapes the URL splitter of the standard library itself refuses (ValueError from urlsplit / .port)
+               "redirect_bad_brackets": rng.choice(("ws://[::1/x", "//[::1", "ws://[not-an-ip]/", "ws://[/", "wss://]/x", "ws://[v1.x]/", "/p[/x", "ws://a]b/")),
+               "redirect_nfkc_host": rng.choice(("ws://exa\u2100mple.org/", "ws://a\uff0fb.test/", "wss://x\u2488y.test/", "ws://\uff03frag.test/")),
+               "redirect_bad_port": rng.choice(("ws://sim.test:99999/", "ws://sim.test:-1/", "ws://sim.test:8o/", "ws://sim.test:\u0661/", "wss://sim.test:65536/x")),
                "redirect_idna": rng.choice(("ws://a..b/", "ws://" + "x" * 64 + ".test/", "ws://.test/x", "wss://sim.test..:443/"))}[corr]
         hdrs = [] if loc is None else [f"Location: {loc}"]
     elif corr == "setcookie_odd":
